@@ -36,6 +36,8 @@ pub fn oracle_signed_hex(d: &[u8; 20]) -> String {
     if neg { format!("-{t}") } else { t.to_string() }
 }
 
+pub fn ref_hash(id: &str, secret: &[u8], public: &[u8]) -> String { oracle_signed_hex(&digest(id, secret, public)) }
+
 fn class_of(d: &[u8; 20]) -> String {
     let neg = d[0] & 0x80 != 0;
     let lead = if d[0] == 0 { "lead-zero-byte" } else if d[0] < 16 { "lead-zero-nibble" }
@@ -99,6 +101,24 @@ pub fn run(a: &Args) {
         let secret = if rng.chance(1, 8) { vec![] } else { rng.bytes(16) };
         let public = match rng.below(4) { 0 => vec![], 1 => rng.bytes(162), _ => { let n = rng.range(1, 300) as usize; rng.bytes(n) } };
         cases.push(one(&id, &secret, &public));
+    }
+    // the hash as the session server receives it: the real MojangAdapter against a loopback mock
+    // (secret, key and server id all different, so an argument mix-up at the call site is visible)
+    let mock = crate::c12::SessionMock::start();
+    for i in 0..(a.cases / 20).max(8) {
+        let id: String = rng.pick(&["", "passage", "srv-1"]).to_string();
+        let secret = rng.bytes(16);
+        let plen = if i % 2 == 0 { 162 } else { rng.range(1, 200) as usize };
+        let public = rng.bytes(plen);
+        let d = digest(&id, &secret, &public);
+        let want = oracle_signed_hex(&d);
+        let seen = mock.hash_seen(&id, "Player", &secret, &public);
+        cases.push(Case {
+            request: format!("c11.hash {} {} {}", hex(id.as_bytes()), hex(&secret), hex(&public)),
+            observed: seen.as_ref().map_or("no-request".into(), |h| hex(h)),
+            oracle: if seen.as_deref() == Some(want.as_bytes()) { None } else { Some(format!("hasJoined request carried serverId={:?}, Minecraft's hash of (server id, secret, key) is {want}", seen.map(|h| String::from_utf8_lossy(&h).to_string()))) },
+            class: format!("request:{}", class_of(&d)),
+        });
     }
     write_cases(&a.out, &cases).expect("write cases");
     println!("c11: {} cases", cases.len());
